@@ -248,7 +248,9 @@ func runC09(rc *runCtx) error {
 	type job struct{ idx, cfg int }
 	var jobs []job
 	for i := 0; i < n; i++ {
-		jobs = append(jobs, job{i, 0})
+		// every other stress run under a finite cache budget (never reached): the manager sizes every registered cache
+		// after each request, next to the writers and searchers that fill them
+		jobs = append(jobs, job{i, []int{0, 6}[i%2]})
 	}
 	for i := 0; i < (n+1)/2; i++ {
 		jobs = append(jobs, job{i, 10})
